@@ -264,7 +264,7 @@ class ExprGen:
         names = list(root.fields)
         self.rng.shuffle(names)
         if kind == "query" and self.rng.random() < 0.4:
-            pref = self.rng.choice(["vfSearch", "vfNodes"])
+            pref = self.rng.choice(["vfSearch", "vfNodes", "vfPhoto", "vfAvatar"])
             if pref in names:
                 names.remove(pref)
                 names.insert(0, pref)
@@ -319,6 +319,11 @@ def worker(case: Dict[str, Any]) -> CaseResult:
     for tn, extra in (("VfUser", "vfName"), ("VfPost", "vfTitle"), ("VfComment", "vfBody")):
         spec.objects[tn] = (["VfNode"], list(meta) + [Field(extra, "String", [Arg("key", "String")])])
     spec.unions["VfSearch"] = ["VfUser", "VfPost", "VfComment"]
+    # two unrelated types whose same-named field takes same-named arguments of different types and nullability
+    spec.enums["VfSize"] = ["VF_SMALL", "VF_LARGE"]
+    spec.objects["VfAvatar"] = ([], [Field("vfUrl", "String", [Arg("size", "Int!"), Arg("format", "String")]), Field("vfId", "ID!")])
+    spec.objects["VfPhoto"] = ([], [Field("vfUrl", "String", [Arg("size", "VfSize!"), Arg("format", "ID!")]), Field("vfId", "ID!")])
+    spec.objects[spec.roots["query"]][1].extend([Field("vfAvatar", "VfAvatar"), Field("vfPhoto", "VfPhoto", [Arg("size", "Float")])])
     spec.objects[spec.roots["query"]][1].extend([Field("vfSearch", "[VfSearch!]!", [Arg("text", "String")]), Field("vfNodes", "[VfNode!]!")])
     sdl = case.get("_sdl") or spec.sdl()
     schema_ref = build_schema(sdl)
